@@ -3,13 +3,13 @@ import GMGProofs.Lemmas.CycleToy
 /-!
 # C01 — the stop test of `solve()`
 
-Property theorems only.  Model: `Cycle.loop`, `Cycle.solve`, `Cycle.converged` (`GMGModel/Solve.lean`).
+Property theorems only.  Model: `MGCycle.loop`, `MGCycle.solve`, `MGCycle.converged` (`GMGModel/Solve.lean`).
 Definitions used in the statements (`relOf`, `tested`, `exposed`, `written`, `WritesIn`) are in
 `GMGProofs/Lemmas/Cycle{Exec,Loop}.lean`.  Every vector type `V`, scalar type `R`, operators `Ops V`,
 norm arithmetic `NormOps V R` (nothing is assumed about `gt`, `div`, `norm`), every object state.
 -/
 namespace C01
-open Cycle
+open MGCycle
 
 variable {V R : Type}
 
